@@ -360,7 +360,7 @@ func C20(p *core.Program, r *core.Report) {
 
 	// ---- (5) AT
 	g := newGuardedEngine(p)
-	n := g.checkGuarded(r, dtlsrGuarded, false)
+	n := g.checkGuarded(r, dtlsrGuarded, true)
 	r.Min("accesses to DTLSR state", 20)
 	r.Count("accesses to DTLSR state", n)
 }
